@@ -80,7 +80,17 @@ class MessageExtractor:
                 code = node.code.code
                 if node.escapes:
                     # the arguments of filter calls are Python too
-                    code += " | " + node.escapes
+                    # keep the filters on the line they are written on
+                    code += (
+                        " |"
+                        + "\n"
+                        * (
+                            node.escapes_lineno_offset
+                            - node.code.code.count("\n")
+                        )
+                        + " "
+                        + node.escapes
+                    )
             else:
                 continue
 
